@@ -269,7 +269,7 @@ class Gen(object):
         self.fire_due()
 
     def do_crash(self):
-        k = self.r.choice([0, 1, 1, 2, 2, 3, 4])
+        k = self.r.choice([0, 1, 1, 2, 2, 3, 3, 4, 5, 6, 7, 8])
         self.emit({"op": "crash", "k": k})
         n = len(self.h)
         self.r.choice([self.do_claim, self.do_release, self.do_open, self.do_close, self.do_add, self.do_allocate,
@@ -280,6 +280,14 @@ class Gen(object):
             # the chosen action expanded to several ops (e.g. had to connect first): move the prefix
             self.h.pop(n - 1)
             self.h.insert(len(self.h) - 1, {"op": "crash", "k": k})
+        last = self.h[-1]
+        if last["op"] in ("connect", "drop") or (last["op"] == "recv" and last["msg"].get("type") in ("bind", "list", "ping")):
+            # nothing worth crashing: crash a sweep instead (it has the most commit boundaries)
+            self.h.pop(-2)
+            self.emit({"op": "crash", "k": k})
+            self.do_sweep()
+            if self.h[-1]["op"] != "sweep":
+                self.h.pop(-1) if self.h[-1]["op"] == "crash" else None
         self.conns = {}
         self.t += self.r.choice([0, 1, 8, 80])     # the process is down: no timer firing in between
         self.emit({"op": "restart", "t": self.t})
